@@ -44,8 +44,20 @@ type Resolver struct {
 // NewResolver creates a new did:web Resolver with default TLS configuration.
 func NewResolver() *Resolver {
 	return &Resolver{
-		HttpClient: client.NewWithCache(5 * time.Second),
+		HttpClient: client.NewWithCache(5 * time.Second).WithRedirectPolicy(sameOriginRedirectsOnly),
 	}
+}
+
+// sameOriginRedirectsOnly refuses redirects that lead to another scheme, host or port:
+// a did:web document is served over HTTPS by the host that its identifier names.
+func sameOriginRedirectsOnly(req *http.Request, via []*http.Request) error {
+	if len(via) >= 10 {
+		return errors.New("stopped after 10 redirects")
+	}
+	if origin := via[0].URL; req.URL.Scheme != origin.Scheme || req.URL.Host != origin.Host {
+		return fmt.Errorf("redirect to another origin (%s://%s) is not allowed", req.URL.Scheme, req.URL.Host)
+	}
+	return nil
 }
 
 // Resolve implements the DIDResolver interface.
